@@ -18,7 +18,7 @@ theorem fire_frame (cfg : Config) (s : State) :
     (fire cfg s).tokens = s.tokens ∧ (fire cfg s).timer = s.timer ∧ (fire cfg s).cur = s.cur ∧
     (fire cfg s).factor = s.factor ∧ (fire cfg s).ovf = s.ovf ∧ (fire cfg s).consumed = s.consumed ∧
     (fire cfg s).dropped = s.dropped ∧ (fire cfg s).adds = s.adds ∧ (fire cfg s).now = s.now ∧
-    (fire cfg s).closed = s.closed ∧ (fire cfg s).cancelled = s.cancelled ∧ (fire cfg s).runCalled = s.runCalled ∧
+    (fire cfg s).closed = s.closed ∧ (fire cfg s).cancelled = s.cancelled ∧ (fire cfg s).runCalls = s.runCalls ∧
     (fire cfg s).loop = s.loop ∧ (fire cfg s).closeWaiting = s.closeWaiting ∧
     (fire cfg s).closeReturned = s.closeReturned ∧ (fire cfg s).runReturned = s.runReturned ∧
     (fire cfg s).wk = s.wk ∧ (fire cfg s).armedAt = s.armedAt := by
@@ -72,6 +72,7 @@ structure Inv (cfg : Config) (s : State) : Prop where
   cl : (0 < s.closeWaiting ∨ 0 < s.closeReturned) → s.closed = true
   clret : 0 < s.closeReturned → s.tokens = 0 ∧ s.senders = 0 ∧ s.running = false
   off : s.loop = .off → s.senders = 0
+  cas : s.casDone = false → s.loop = .off
 
 theorem inv_init (cfg : Config) (hv : cfg.valid) : Inv cfg (init cfg) := by
   constructor <;> simp [init_def]
@@ -85,7 +86,7 @@ theorem capReached_iff (cfg : Config) (s : State) :
 
 theorem inv_handleInput {cfg : Config} (hv : cfg.valid) {s : State} (hi : Inv cfg s)
     (hsel : s.loop = .sel) (_htok : 0 < s.tokens) : Inv cfg (handleInput cfg s) := by
-  obtain ⟨sig, acct, lost, idle, armed, capi, cl, clret, off⟩ := hi
+  obtain ⟨sig, acct, lost, idle, armed, capi, cl, clret, off, cas⟩ := hi
   have hrun : s.running = true := by simp [State.running, hsel]
   have hcr : s.closeReturned = 0 := by
     rcases Nat.eq_zero_or_pos s.closeReturned with h | h
@@ -130,7 +131,7 @@ macro "cfin" : tactic =>
 
 theorem inv_handleTimer {cfg : Config} (hv : cfg.valid) {s : State} (hi : Inv cfg s)
     (hsel : s.loop = .sel) : Inv cfg (handleTimer cfg s) := by
-  obtain ⟨sig, acct, lost, idle, armed, capi, cl, clret, off⟩ := hi
+  obtain ⟨sig, acct, lost, idle, armed, capi, cl, clret, off, cas⟩ := hi
   have hrun : s.running = true := by simp [State.running, hsel]
   have hcr : s.closeReturned = 0 := by
     rcases Nat.eq_zero_or_pos s.closeReturned with h | h
@@ -162,13 +163,11 @@ theorem inv_step {cfg : Config} (hv : cfg.valid) {s s' : State} (l : Label)
       · cases hst
     · cases hst
   | runCall =>
-    obtain ⟨sig, acct, lost, idle, armed, capi, cl, clret, off⟩ := hi
+    obtain ⟨sig, acct, lost, idle, armed, capi, cl, clret, off, cas⟩ := hi
     simp only [step] at hst
-    split at hst
-    · cases hst
-    · cases hst; cfin
+    cases hst; cfin
   | run =>
-    obtain ⟨sig, acct, lost, idle, armed, capi, cl, clret, off⟩ := hi
+    obtain ⟨sig, acct, lost, idle, armed, capi, cl, clret, off, cas⟩ := hi
     simp only [step] at hst
     split at hst
     · next h =>
@@ -176,7 +175,7 @@ theorem inv_step {cfg : Config} (hv : cfg.valid) {s s' : State} (l : Label)
       cfin
     · cases hst
   | add =>
-    obtain ⟨sig, acct, lost, idle, armed, capi, cl, clret, off⟩ := hi
+    obtain ⟨sig, acct, lost, idle, armed, capi, cl, clret, off, cas⟩ := hi
     rw [step_add_def] at hst
     split at hst
     · cases hst; constructor <;> assumption
@@ -185,25 +184,25 @@ theorem inv_step {cfg : Config} (hv : cfg.valid) {s s' : State} (l : Label)
       cfin
       intro m hm; have := capi m hm; omega
   | top =>
-    obtain ⟨sig, acct, lost, idle, armed, capi, cl, clret, off⟩ := hi
+    obtain ⟨sig, acct, lost, idle, armed, capi, cl, clret, off, cas⟩ := hi
     simp only [step] at hst
     split at hst
     · next h => cases hst; cfin
     · cases hst
   | tokenGiveUp =>
-    obtain ⟨sig, acct, lost, idle, armed, capi, cl, clret, off⟩ := hi
+    obtain ⟨sig, acct, lost, idle, armed, capi, cl, clret, off, cas⟩ := hi
     simp only [step] at hst
     split at hst
     · next h => cases hst; cfin
     · cases hst
   | exitLoop =>
-    obtain ⟨sig, acct, lost, idle, armed, capi, cl, clret, off⟩ := hi
+    obtain ⟨sig, acct, lost, idle, armed, capi, cl, clret, off, cas⟩ := hi
     simp only [step] at hst
     split at hst
     · next h => cases hst; cfin
     · cases hst
   | advance t =>
-    obtain ⟨sig, acct, lost, idle, armed, capi, cl, clret, off⟩ := hi
+    obtain ⟨sig, acct, lost, idle, armed, capi, cl, clret, off, cas⟩ := hi
     simp only [step] at hst
     split at hst
     · next h =>
@@ -211,11 +210,11 @@ theorem inv_step {cfg : Config} (hv : cfg.valid) {s s' : State} (l : Label)
       intro d hd; have := armed d hd; omega
     · cases hst
   | close =>
-    obtain ⟨sig, acct, lost, idle, armed, capi, cl, clret, off⟩ := hi
+    obtain ⟨sig, acct, lost, idle, armed, capi, cl, clret, off, cas⟩ := hi
     simp only [step] at hst
     cases hst; cfin
   | closeRet =>
-    obtain ⟨sig, acct, lost, idle, armed, capi, cl, clret, off⟩ := hi
+    obtain ⟨sig, acct, lost, idle, armed, capi, cl, clret, off, cas⟩ := hi
     simp only [step] at hst
     split at hst
     · next h =>
@@ -225,28 +224,34 @@ theorem inv_step {cfg : Config} (hv : cfg.valid) {s s' : State} (l : Label)
       cfin
     · cases hst
   | cancel =>
-    obtain ⟨sig, acct, lost, idle, armed, capi, cl, clret, off⟩ := hi
+    obtain ⟨sig, acct, lost, idle, armed, capi, cl, clret, off, cas⟩ := hi
     simp only [step] at hst
     cases hst; cfin
   | consume =>
-    obtain ⟨sig, acct, lost, idle, armed, capi, cl, clret, off⟩ := hi
+    obtain ⟨sig, acct, lost, idle, armed, capi, cl, clret, off, cas⟩ := hi
     simp only [step] at hst
     split at hst
     · next h =>
       cases hst; cfin
     · cases hst
   | senderGiveUp =>
-    obtain ⟨sig, acct, lost, idle, armed, capi, cl, clret, off⟩ := hi
+    obtain ⟨sig, acct, lost, idle, armed, capi, cl, clret, off, cas⟩ := hi
     simp only [step] at hst
     split at hst
     · next h =>
       cases hst; cfin
     · cases hst
   | runRet =>
-    obtain ⟨sig, acct, lost, idle, armed, capi, cl, clret, off⟩ := hi
+    obtain ⟨sig, acct, lost, idle, armed, capi, cl, clret, off, cas⟩ := hi
     simp only [step] at hst
     split at hst
     · next h => cases hst; cfin
+    · cases hst
+  | runErrRet =>
+    obtain ⟨sig, acct, lost, idle, armed, capi, cl, clret, off, cas⟩ := hi
+    simp only [step] at hst
+    split at hst
+    · next h => cases hst; exact ⟨sig, acct, lost, idle, armed, capi, cl, clret, off, cas⟩
     · cases hst
 
 theorem inv_reach {cfg : Config} (hv : cfg.valid) : ∀ s, Reach cfg s → Inv cfg s :=
